@@ -127,10 +127,10 @@ def ta_state_findings(rec, cfg, machine, prev_grants=None):
         gs = sum(pools[n]['granted_shared'] for n in sub)
         gr = sum(pools[n]['granted_reserved'] for n in sub)
         if gs > 1000 * len(p['free_shar']):
-            # which exclusive grant emptied it?  known finding K2 iff some grant sliced at a strict ancestor
+            # which exclusive grant emptied it?  (K2, repaired on both paths: never a known finding any more)
             anc = set(ancestors(p['name']))
             sliced_above = [g['id'] for g in gl if g['exclusive'] and g['pool'] in anc and set(g['exclusive']) & set(p['shar'])]
-            sig = 'descendant-of-slicing-grant' if sliced_above else 'shared-capacity-oversubscribed'
+            sig = 'shared-capacity-oversubscribed'
             out.append(F('C03', 'shared-capacity', sig,
                          'pool %s: %dm shared CPU granted in subtree, %d CPUs left in shared set %s (exclusive slices above: %s)' % (p['name'], gs, len(p['free_shar']), p['free_shar'], sliced_above), seq))
         if len(p['free_res']) and gr > 1000 * len(p['free_res']):
@@ -143,7 +143,7 @@ def ta_state_findings(rec, cfg, machine, prev_grants=None):
             anc = set(ancestors(pn)) if pn in pools else set()
             sliced_above = [g['id'] for g in gl if g['exclusive'] and g['pool'] in anc and pn in pools and set(g['exclusive']) & set(pools[pn]['shar'])]
             # a negative Available may also be inherited from an oversubscribed ancestor/descendant chain
-            sig = 'descendant-of-slicing-grant' if (sliced_above or any(f['sig'] == 'descendant-of-slicing-grant' for f in out)) else 'negative-available'
+            sig = 'negative-available'
             out.append(F('C03', 'available-nonnegative', sig, 'zone %s reports cpu Available %s' % (pn, av), seq))
     # free sets stay inside the sets they are drawn from: a kernel-isolated CPU never turns up among the sharable ones
     isolated_all = set().union(*[set(p['iso']) for p in ta['pools']] or [set()])
